@@ -452,4 +452,50 @@ pub(crate) mod kani_verif {
     rec_harness!(c08_params_roundtrip_l8, check_param_roundtrip::<8>(), 36);
     // @h name=c08_params_roundtrip_l5 props=C08,C13,C01 tier=quick kind=proved cfg=default funcs=CompressedParameterSet::from;CompressedParameterSet::to contract="same, every 5-level list"
     rec_harness!(c08_params_roundtrip_l5, check_param_roundtrip::<5>(), 36);
+
+    // ---- F10: signatures longer than an ArrayVec can hold (u16 length) are refused up front
+    /// RFC 8554: HSS signature = 4 + sum_i lms_sig_len(n, p_i, h_i) + (L-1) * lms_pub_len(n), written from the RFC
+    fn spec_hss_sig_len(n: u32, hs: &[u32], ws: &[u32]) -> u32 {
+        let mut len = 4 + (hs.len() as u32 - 1) * (24 + n);
+        let mut i = 0;
+        while i < hs.len() {
+            let (_u, _v, _ls, p) = spec_appendix_b(n, ws[i]);
+            len += 4 + (4 + n * (p + 1)) + 4 + n * hs[i];
+            i += 1;
+        }
+        len
+    }
+    fn check_representable<const L: usize>() {
+        type HH = crate::hasher::sha256::Sha256_256;
+        let (codes, hs) = any_heights::<L>(false);
+        let mut wc = [0u8; L];
+        let mut ws = [0u32; L];
+        let mut i = 0;
+        while i < L {
+            wc[i] = any_lmots_code();
+            ws[i] = spec_w_of_lmots_code(wc[i]).unwrap();
+            i += 1;
+        }
+        let params = param_list::<HH>(&codes, &wc);
+        let fits = spec_hss_sig_len(32, &hs, &ws) <= 65535;
+        let r = CompressedParameterSet::from(params.as_slice());
+        assert!(r.is_ok() == fits, "keygen accepts a list iff its HSS signature fits the 65535 bytes an ArrayVec can hold");
+        // loading a key blob with these parameter bytes (e.g. written by another implementation) follows the same rule
+        let mut pb = [0xffu8; MAX_ALLOWED_HSS_LEVELS];
+        i = 0;
+        while i < L {
+            pb[i] = (codes[i] << 4) | wc[i];
+            i += 1;
+        }
+        let back = cps_from_array(pb).to::<HH>();
+        assert!(back.is_ok() == fits, "and a stored key decodes iff its signature is representable: Err before anything is signed");
+        kani::cover!(fits, "representable list reachable");
+        kani::cover!(L < 7 || !fits, "too long list reachable");
+    }
+    // @h name=c11_sig_representable_l8 props=C11,C04!,C01!,C14 tier=quick kind=proved cfg=default timeout=900 funcs=CompressedParameterSet::from;CompressedParameterSet::to;hss_signature_is_representable contract="n=32, every 8-level list: keygen and key loading accept it iff 4 + sum lms_sig_len + 7*56 <= 65535 (tinyvec ArrayVec length is a u16); otherwise Err before any leaf is used"
+    rec_harness!(c11_sig_representable_l8, check_representable::<8>(), 36);
+    // @h name=c11_sig_representable_l7 props=C11,C04,C01,C14 tier=quick kind=proved cfg=default timeout=900 funcs=CompressedParameterSet::from;CompressedParameterSet::to;hss_signature_is_representable contract="same, every 7-level list"
+    rec_harness!(c11_sig_representable_l7, check_representable::<7>(), 36);
+    // @h name=c11_sig_representable_l3 props=C11,C04,C01,C14 tier=thorough kind=proved cfg=default timeout=900 funcs=CompressedParameterSet::from;CompressedParameterSet::to contract="same, every 3-level list (always accepted)"
+    rec_harness!(c11_sig_representable_l3, check_representable::<3>(), 36);
 }
